@@ -873,14 +873,17 @@ def run_lcase(case):
                     except StopIteration:
                         break
                 ob = ON("iter", xs)
-            elif k == 'keep':
+            elif k in ('keep', 'remove'):
                 keep.append(list(doc['b']))
-                view.keep_all(lpred_fn(op[1], unwrap))
-                ob = ON("keep")
-            elif k == 'remove':
-                keep.append(list(doc['b']))
-                view.remove_all(lpred_fn(op[1], unwrap))
-                ob = ON("keep")
+                calls = []
+                base = lpred_fn(op[1], unwrap)
+
+                def logged(w, base=base, calls=calls):
+                    # the predicate sees every element once, in list order (a predicate may depend on the order: C19-m8)
+                    calls.append(lval(cx, unwrap(w)))
+                    return base(w)
+                (view.keep_all if k == 'keep' else view.remove_all)(logged)
+                ob = ON("keep", [ON("calls", calls)])
             else:
                 raise ValueError(k)
         except Exception as e:  # noqa
